@@ -1118,6 +1118,8 @@ class sptensor:
         """
         # Case 1: Argument is a scalar or tensor
         if isinstance(other, (float, int, ttb.tensor)):
+            if isinstance(other, ttb.tensor) and self.shape != other.shape:
+                assert False, "Logical Or requires tensors of the same size"
             return self.full().logical_or(other)
 
         # Case 2: Argument is an sptensor
@@ -1188,6 +1190,8 @@ class sptensor:
         """
         # Case 1: Argument is a scalar or dense tensor
         if isinstance(other, (float, int, ttb.tensor)):
+            if isinstance(other, ttb.tensor) and self.shape != other.shape:
+                assert False, "Logical XOR requires tensors of the same size"
             return self.full().logical_xor(other)
 
         # Case 2: Argument is an sptensor
@@ -2845,6 +2849,8 @@ class sptensor:
 
         # Case 1: Second argument is a scalar or a dense tensor
         if isinstance(other, (float, int, ttb.tensor)):
+            if isinstance(other, ttb.tensor) and self.shape != other.shape:
+                assert False, "Must be two tensors of the same shape"
             return self.full() - other
 
         # Case 2: Both are sparse tensors
